@@ -42,6 +42,7 @@ type verifSock struct {
 	closedCh  chan struct{}
 	results   []bool // per WriteTo call: did it succeed
 	failMask  int    // bit i set: the (i+1)-th WriteTo fails
+	triedT    []string // transaction id of every datagram handed to WriteTo, written or not
 }
 
 func verifNewSock() *verifSock {
@@ -68,6 +69,9 @@ func (c *verifSock) ReadFrom(p []byte) (int, net.Addr, error) {
 
 func (c *verifSock) WriteTo(p []byte, addr net.Addr) (int, error) {
 	c.attempts++
+	if tm, tok := verifDecodeMsg(p); tok {
+		c.triedT = append(c.triedT, tm.T)
+	}
 	if c.failAll || (c.failWrite != 0 && c.attempts == c.failWrite) || c.failMask>>(uint(c.attempts)-1)&1 != 0 {
 		c.results = append(c.results, false)
 		return 0, verifErr{"verifSock: write failed"}
